@@ -33,6 +33,9 @@ CLAIMS = {
  "C09": dict(engine="execsim", level="exploration", design="4 C09",
    text="Adversarial transaction streams (byte strings, empty transactions, signed transactions to every precompile incl. the governance precompile with payload lengths around its parser offsets, malformed key-value payloads, unsigned, stale, future and replayed transactions, contract creations and calls) are executed by real full nodes; the node must survive every block, account nonces and receipts must match a reference nonce model transaction by transaction (valid exactly at the sender's current nonce, nonce +1 per valid transaction, replays invalid), key values must be the last valid write, and a twin replica executing the chain without the certainly-invalid transactions must end in the same application hash.",
    note="Input space (byte strings, bytecode) is sampled from a fixed catalogue; simulation adds node survival, replay across blocks, the differential twin and replica histories. Transactions whose validity depends on gas accounting are judged only differentially."),
+ "C14": dict(engine="execsim", level="exploration", design="4 C14",
+   text="A chain with 1-4 genesis validators of seeded powers whose keys the harness holds (it signs every commit with the set in force). Half of the transactions are administrative requests of 26 variants sent through the genesis admin contract or straight to the precompile: fully signed add/update/remove, the minimal signer subset that exceeds 2/3 and the maximal one that does not, one signature repeated, non-validator and zero-power signers, signatures over another message, truncated signatures and keys, stale/future request nonces, requests in another account's name, accepted requests replayed (as a transaction through the contract, as a direct call in the original sender's name, and as a read-only contract query at a single replica), unknown command types and commands, updates of absent and additions of present nodes, a joining node that did not sign. An independent reference predicate (crypto/ed25519, distinct current validators with positive power, strictly more than 2/3, sender and nonce binding) decides each request from its bytes; a reference validator map is advanced by exactly the authorised ones, with membership conditions evaluated against the set in force and changes landing at the end of the block. After every block the validator set of every replica (3-5 real full nodes with restarts and different verifier goroutine counts) must equal the reference map.",
+   note="Executor path (the calls fast sync makes), as for C05/C09; the admin plugin, the precompile, the genesis contract and the EVM are the real code. Requests that would make a block fail on every replica alike (two authorised changes of one node in one block, removal of the last validator with power) are not generated."),
  "C11": dict(engine="triesim", level="exploration", design="4 C11",
    text="Operation histories over keys with shared prefixes of every length (1-32 bytes from a 6-symbol alphabet, values 0-100 bytes): update, delete, get, hash, commit, clean reopen at the last committed root, crash inside TrieDB.Commit before its k-th batch write followed by reopen, injected batch write error; after every step Get agrees with a map model, roots equal reference go-ethereum v1.8.27's root for the same content and the root of a differently ordered history, reopen reproduces exactly the committed content, proofs verify to the stored value or absence exactly as the reference's do. StateDB histories (nonce, balance, storage, code, self-destruct, nested snapshot/revert, IntermediateRoot, Commit, reopen) run in lockstep with the reference StateDB and a model with a snapshot stack.",
    note="No clock and no concurrency exist on this surface; the fault dimension is reopen, crash-reopen and write failure on the simulated disk. The history-independence and reference-equality halves are model-based history checking driven by the same seeded machinery."),
@@ -52,7 +55,6 @@ CLAIMS = {
 
 PLANNED = {
  "C13": "not claimed yet: syncsim not built in this revision",
- "C14": "not claimed yet: admin workload of execsim not built in this revision",
  "C19": "not claimed yet: poolsim not built in this revision",
  "C20": "not claimed yet: p2psim not built in this revision",
 }
@@ -84,8 +86,8 @@ def main():
         dict(name="instr", path="/verif/instr", serves_properties=sorted(CLAIMS), kind_free_text="go/ast instrumenter applied to the scratch copy: go statements -> simhook.Go (level 0), lock sites -> simhook.LockF (level 1)"),
         dict(name="csim", path="/verif/sims/csim", serves_properties=[p for p in sorted(CLAIMS) if "csim" in CLAIMS[p]["engine"]], kind_free_text="message-level consensus simulator: real ConsensusState/Reactor.Receive/WAL/signer/store per validator, Byzantine puppets, run-to-quiescence in a synctest bubble"),
         dict(name="signersim", path="/verif/sims/signersim", serves_properties=["C03"], kind_free_text="crash-point and write-error enumeration over the real signer file"),
-        dict(name="fullnode", path="/verif/sims/fullnode", serves_properties=["C05", "C06", "C09"], kind_free_text="assembles a complete node (real Angine + real EVM application) over simulated disks without sockets"),
-        dict(name="execsim", path="/verif/sims/execsim", serves_properties=["C05", "C06", "C09"], kind_free_text="one harness-built chain executed by many real full nodes with different process histories; crash-point enumeration over the commit path"),
+        dict(name="fullnode", path="/verif/sims/fullnode", serves_properties=["C05", "C06", "C09", "C14"], kind_free_text="assembles a complete node (real Angine + real EVM application) over simulated disks without sockets"),
+        dict(name="execsim", path="/verif/sims/execsim", serves_properties=["C05", "C06", "C09", "C14"], kind_free_text="one harness-built chain executed by many real full nodes with different process histories; crash-point enumeration over the commit path"),
         dict(name="triesim", path="/verif/sims/triesim", serves_properties=["C11"], kind_free_text="trie / StateDB histories with commit, reopen, crash-reopen, write error; reference go-ethereum in lockstep"),
         dict(name="partsim", path="/verif/sims/partsim", serves_properties=["C17"], kind_free_text="part-set sender/receiver with reordering, duplicating, mutating network; Merkle proof mutations"),
         dict(name="valsetsim", path="/verif/sims/valsetsim", serves_properties=["C16"], kind_free_text="validator-set histories replayed on differently-batched / persisted replicas"),
